@@ -418,11 +418,12 @@ def run(ctx, explain=False):
     traces = pool_map(drive, [rs[i] for i in order], chunksize=1)
     # one TLC run per ~20 M integers (~80 MB) of trace data, light traces first
     traces.sort(key=size_of)
-    batch, acc, k = [], 0, 0
+    batch, acc, k, drift = [], 0, 0, 0
     for t in traces + [None]:
         if t is None or (batch and acc + size_of(t) > 20_000_000):
             k += 1
-            ctx.validate(TRACE, batch, name="Trace_SHT(batch %d)" % k, timeout=3000)
+            out = ctx.validate(TRACE, batch, name="Trace_SHT(batch %d)" % k, timeout=3000)
+            drift += sum(1 for v in out.values() if "drift=" in v)
             batch, acc = [], 0
         if t is not None:
             batch.append(t)
@@ -446,6 +447,7 @@ def run(ctx, explain=False):
         "compiled kernels (_sht*.so) are used as found; they cannot be rebuilt here",
     ]
     ctx.notes["L_values"] = Ls
+    ctx.notes["spec_drift"] = "%d accepted traces whose grid sizes differ from the transcribed rule (still sufficient)" % drift
     ctx.notes["slack"] = {"RelBits": 30, "AbsQuanta": 4, "quantum": "2^-40", "ParsevalRelBits": 28}
 
 
